@@ -4,11 +4,12 @@ namespace Restful
 namespace TieImp
 namespace T2
 open Imp
+set_option linter.unusedSimpArgs false
 
 theorem fixed_prefix_path (X : ImpGen.Ext) (p : Str) :
     ImpGen.fixedPrefixPath X p = some (Registry.fixedPrefixPath p) := by 
   unfold ImpGen.fixedPrefixPath Registry.fixedPrefixPath
-  simp only [String.reduceToList, index_single]
+  simp only [String.reduceToList, index_single, containsSub_single]
   cases hi : Str.index '{' p with
   | none => simp
   | some k =>
